@@ -17,8 +17,10 @@ func init() {
 			"(R2) in log() and ContextTracer.Submit every path past the filter performs exactly one send on the log buffer by the calling goroutine itself (direct, or the chosen case of the forced-emptying loop) - no hand-off to another goroutine, no second send - followed by the writer wake-up; " +
 			"(R3) duplicate merging: logLine.Equal holds only for lines without tracer that agree in message, file, line and level (truth table), the writer writes the held line on every path before it replaces it, resets the duplicate count with it, and writes the last held line; " +
 			"(R4) all shutdown arms of the writer drain the buffer (finalizeWriting) before returning, finalizeWriting writes every line it dequeues, Shutdown closes the signal and waits for the writer. " +
+			"(R5) lock pairing over the functions of package(s) log: " + lockRuleText + ". " +
 			"NOT decided: order under real producer interleavings, timing of the drain window.",
-		Rules: []ruleFn{c20R1, c20R2, c20R3, c20R4},
+		Rules: []ruleFn{c20R1, c20R2, c20R3, c20R4,
+			lockRuleFor("C20-R5", 4, []string{"log"}, []string{}, map[string]string{})},
 	})
 }
 
